@@ -326,6 +326,15 @@ pub fn tree_walker(
                     // guarantee a worker will action the creation
                     // before a subsequent copy operation requires it.
                     debug!("Creating target directory {:?}", target);
+                    // A symbolic link sitting where the directory goes
+                    // would satisfy create_dir_all() if it leads to a
+                    // directory, and the contents would then be copied
+                    // to wherever it points, outside the destination.
+                    if target.symlink_metadata().is_ok_and(|m| m.file_type().is_symlink()) {
+                        let msg = format!("Error creating target directory: {:?} is a symbolic link", target);
+                        error!("{msg}");
+                        return Err(XcpError::CopyError(msg).into())
+                    }
                     if let Err(err) = create_dir_all(&target) {
                         let msg = format!("Error creating target directory: {}", err);
                         error!("{msg}");
